@@ -490,7 +490,8 @@ RegBody(c) ==
                       /\ UNCHANGED <<act, rsp, reg>>
             ELSE \* spawn a fresh Default instance, register it (dropping a dead entry), ping it under the lock
                  LET r == RegSlot(reg.n + 1)
-                     fresh == [UnbornActor EXCEPT !.pc = "starting", !.inst = hst.ninst + 1, !.ty = T,
+                     \* (instances of the user's actor type are numbered; a Broker is library code and not one of them)
+                     fresh == [UnbornActor EXCEPT !.pc = "starting", !.inst = IF IsBrokerType(T) THEN 0 ELSE hst.ninst + 1, !.ty = T,
                                                    !.sscr = IF IsBrokerType(T) THEN <<>> ELSE ServiceCfgS,
                                                    !.pscr = IF IsBrokerType(T) THEN <<>> ELSE ServiceCfgP] IN
                  /\ r \in Actor /\ act[r].pc = "unborn"
@@ -500,14 +501,14 @@ RegBody(c) ==
                          /\ reg' = [reg EXCEPT !.ent = (T :> r) @@ @, !.lock = c, !.n = @ + 1]
                          /\ cli' = [cli EXCEPT ![c] = [@ EXCEPT !.stage = "regping", !.ta = r, !.hold = [tx |-> TRUE, fo |-> TRUE, raw |-> FALSE]]]
                          /\ hnd' = hnd
-                         /\ hst' = [Log("spawn", r) EXCEPT !.ninst = @ + 1]
+                         /\ hst' = [Log("spawn", r) EXCEPT !.ninst = IF IsBrokerType(T) THEN @ ELSE @ + 1]
                     ELSE \* release: no ping, the lock is released at once; a ViaBroker operation goes on to its send in the same poll
                          /\ act' = [act EXCEPT ![r] = IF op \in ViaBroker THEN Enq(fresh, BrokerPayload(op, m, c), DEAD) ELSE fresh]
                          /\ rsp' = rsp
                          /\ reg' = [reg EXCEPT !.ent = (T :> r) @@ @, !.n = @ + 1]
                          /\ cli' = Finished(cli, c, Last("ok", 0, 0, r))
                          /\ hnd' = IF op \in {"setup"} \cup ViaBroker THEN hnd ELSE NewH(hnd, nh, r, c)
-                         /\ hst' = [(IF op = "subscribe" THEN HSubDone(Log("spawn", r), T, c) ELSE Log("spawn", r)) EXCEPT !.ninst = @ + 1]
+                         /\ hst' = [(IF op = "subscribe" THEN HSubDone(Log("spawn", r), T, c) ELSE Log("spawn", r)) EXCEPT !.ninst = IF IsBrokerType(T) THEN @ ELSE @ + 1]
        [] op = "register" ->
             LET a0 == cli[c].ta IN
             IF has /\ ~(IF "D1" \in Dev THEN act[old].shared ELSE act[old].notif # "armed")
@@ -981,7 +982,11 @@ Exit(a) ==                                 \* end of the async block: Ok(actor),
 \* fault: the runtime drops the task while it is suspended (runtime shutdown, smol handle drop)
 \* (only where the loop future can be suspended: between Dequeue and the handler, or between stopped(),
 \* notify() and the return, there is no await)
+\* (fault model: the runtime drops the task of an actor the program spawned itself.  Actors the registry spawns on
+\* demand - services, brokers - are detached inside the library: nothing but runtime shutdown ends their task, and a
+\* debug build asserts that a fresh service answers its first ping, service.rs:169)
 Cancel(a) ==
+  /\ a \notin {RegSlot(n) : n \in 1..reg.n}
   /\ act[a].pc \notin {"unborn", "done", "failed", "dequeued", "stopped", "notified", "rs_mid"}
   /\ Fail(a, "cancel")
 
